@@ -7,6 +7,8 @@ import XmppModel.Lemmas.SendGuard
 import XmppModel.Generated.C05
 import XmppModel.Model.ValueForms
 import XmppModel.Model.Transport
+import XmppModel.Model.SendFlush
+import XmppModel.Lemmas.SendFlush
 /-!
 # C05 — each transmit call puts exactly its own element on the wire, whole
 
@@ -1001,6 +1003,55 @@ theorem C05_gen_conn_write_exact :
 /-- non-vacuity of `C05_transport_exact`: a write cut short with a temporary error; the wire is
 the accepted prefix, the failure is reported -/
 example : Transport.flushChunks Transport.writeOnce [⟨3, some .temp⟩] [[1, 2, 3, 4, 5, 6, 7, 8], [9]] = ([1, 2, 3], false) := by
+  decide
+
+/-! ### a call that returned nil HAS put its element on the output stream (round E, seeded C05-19) -/
+
+open SendFlush in
+/-- **returned ⇒ on the wire**: with the unconditional flush at the end of every transmit call
+(`send`, `Encode`, `EncodeElement`, the token writer's `Close`), for ANY number of calls, every
+program (calls that give up after k items — k = 0: the reader fails on the first token, not a
+start element, closed stream — without flushing), every schedule and every placement of
+buffer spills: at every moment, each call that has returned nil has its complete block on the
+WIRE (not in the buffer), contiguous, ending where the stream stood when it returned; every
+call in state `ok` is such a call.  It does not matter who is queued for the lock. -/
+theorem C05_returned_on_wire {α : Type} (p : Prog α) (hp : p.lazy = false) (sched : List Act) :
+    let s := run p (init α) sched
+    (∀ i, s.pc i = .ok → ∃ e, (i, e) ∈ s.rets) ∧
+    ∀ r ∈ s.rets, ∃ pre post, s.wire = pre ++ p.job r.1 ++ post ∧ (pre ++ p.job r.1).length = r.2 := by
+  intro s
+  have inv := inv_run p hp sched (init α) (inv_init p)
+  exact ⟨inv.ok_ret, fun r hr => returned_on_wire inv r hr⟩
+
+/-- the program of the witness: call 0 sends `a`; call 1 queues behind it and then gives up
+before its first item (its token reader fails) -/
+def queuedQuitter (lazy : Bool) : SendFlush.Prog String :=
+  { job := fun i => if i = 0 then ["a"] else ["b"], stopAt := fun i => if i = 1 then some 0 else none, lazy := lazy }
+
+def queuedQuitterSched : List SendFlush.Act :=
+  [.call 0, .call 0, .call 0, .call 1, .call 0, .call 1, .call 1]
+
+open SendFlush in
+/-- **the hypothesis is necessary** (the "group commit" of seeded C05-19): when the final flush
+is skipped because another call is queued, and that call then ends without flushing, call 0 has
+returned nil and NOTHING is on the wire; with the unconditional flush the same schedule has `a`
+on the wire at that point -/
+theorem C05_group_commit_loses_element :
+    (let s := run (queuedQuitter true) (init String) queuedQuitterSched
+     s.pc 0 = .ok ∧ s.pc 1 = .err ∧ s.lock = none ∧ s.wire = [] ∧ s.buf = ["a"]) ∧
+    (let s := run (queuedQuitter false) (init String) queuedQuitterSched
+     s.pc 0 = .ok ∧ s.pc 1 = .err ∧ s.lock = none ∧ s.wire = ["a"] ∧ s.buf = []) := by
+  decide
+
+/-- non-vacuity of `C05_returned_on_wire`: three calls queued at once, the second gives up before its
+first item, a spill in the middle of the first; both successful calls are on the wire -/
+example :
+    let p : SendFlush.Prog String :=
+      { job := fun i => if i = 0 then ["a", "b"] else if i = 1 then ["x"] else ["c"],
+        stopAt := fun i => if i = 1 then some 0 else none, lazy := false }
+    let s := SendFlush.run p (SendFlush.init String)
+      [.call 0, .call 1, .call 2, .call 0, .call 0, .spill 1, .call 0, .call 0, .call 1, .call 1, .call 2, .call 2, .call 2]
+    s.wire = ["a", "b", "c"] ∧ s.rets = [(0, 2), (2, 3)] ∧ s.pc 1 = .err := by
   decide
 
 end XmppModel.Props.C05
